@@ -17,6 +17,7 @@ EXTRA = {  # checks besides the seed's own property that are worth running again
     "C06-F": ["C05"], "C04-G": ["C14"], "C04-H": ["C14"], "C08-E": ["C18"], "C19-H": ["C09"], "C05-G": ["C06"],
     "C18-G": ["C07"], "C07-I": ["C14"], "C08-H": ["C18"], "C08-G": ["C07"], "C17-G": ["C14"], "C09-G": ["C17"], "C20-H": ["C14"],
     "C03-G": ["C14"], "C03-H": ["C01"], "C06-G": ["C05"], "C06-H": ["C05"], "C15-H": ["C04"], "C11-H": ["C10"],
+    "C01-K": ["C02"], "C02-J": ["C01"], "C04-J": ["C14"], "C01-J": ["C03"],
 }
 
 
